@@ -451,6 +451,10 @@ pub(crate) fn mw_maybe_insert(_t: &mut PairTable, item: u32) -> bool {
 pub(crate) fn mw_refresh_kxp(_s: &mut CpcSketch, _m: &[u64]) {}
 
 fn move_window_contract_case(o: u8) {
+    move_window_contract_case_n(o, 2)
+}
+
+fn move_window_contract_case_n(o: u8, max_per_row: u32) {
     let new = o + 1;
     let m: [u64; MR] = kani::any();
     let early: u64 = (1u64 << new) - 1;
@@ -461,7 +465,7 @@ fn move_window_contract_case(o: u8) {
     let mut i = 0;
     while i < MR {
         pats[i] = (m[i] & !winmask) ^ early;
-        kani::assume(pats[i].count_ones() <= 2);
+        kani::assume(pats[i].count_ones() <= max_per_row);
         i += 1;
     }
     unsafe {
@@ -486,11 +490,12 @@ fn move_window_contract_case(o: u8) {
     assert!(s.num_coupons == c);
     assert!(s.sliding_window.len() == MR);
     let n = unsafe { MW_REC_N };
-    assert!(n <= 8);
+    assert!(n <= 4 * max_per_row as usize && n <= 16);
     assert!(vt::num_items_of(s.surprising_value_table()) == 0 || n > 0, "stale table content survived the move");
     // the recorded surprising values: strictly increasing (so distinct), each outside the new window
+    let nrec = 4 * max_per_row as usize;
     let mut j = 0;
-    while j < 8 {
+    while j < nrec {
         if j < n {
             let rc = unsafe { MW_REC[j] };
             let col = rc & 63;
@@ -508,7 +513,7 @@ fn move_window_contract_case(o: u8) {
     while r < MR {
         let mut row = early | ((s.sliding_window[r] as u64) << new);
         let mut j = 0;
-        while j < 8 {
+        while j < nrec {
             if j < n {
                 let rc = unsafe { MW_REC[j] };
                 if (rc >> 6) as usize == r {
@@ -570,6 +575,41 @@ move_window_contract!(c05_move_window_contract_0_to_1, 0);
 move_window_contract!(c05_move_window_contract_7_to_8, 7);
 move_window_contract!(c05_move_window_contract_30_to_31, 30);
 move_window_contract!(c05_move_window_contract_55_to_56, 55);
+//@ endfamily: x
+
+macro_rules! move_window_contract_deep {
+    ($name:ident, $o:expr, $n:expr) => {
+        #[kani::proof]
+        #[kani::unwind(18)]
+        #[kani::stub(CpcSketch::build_bit_matrix, mw_build_bit_matrix)]
+        #[kani::stub(CpcSketch::refresh_kxp, mw_refresh_kxp)]
+        #[kani::stub(crate::cpc::pair_table::PairTable::maybe_insert, mw_maybe_insert)]
+        fn $name() {
+            let o: u8 = $o;
+            kani::assume(o <= 55);
+            move_window_contract_case_n(o, $n);
+        }
+    };
+}
+
+//@ family: move_window_contract_deep
+//@ props: C05
+//@ tier: thorough
+//@ timeout: 3600
+//@ functions: cpc::sketch::CpcSketch::move_window
+//@ functions: cpc::pair_table::PairTable::clear
+//@ functions: cpc::determine_correct_offset
+//@ unwind: 18
+//@ stubs: CpcSketch::build_bit_matrix -> returns an arbitrary symbolic 4-row matrix; PairTable::maybe_insert -> recorder (returns true); CpcSketch::refresh_kxp -> no-op
+//@ replay_stub: cpc/sketch.rs | pub(super) fn build_bit_matrix(&self) -> Vec<u64> { | if true { return self::verif_kani_cpc_sketch::mw_build_bit_matrix(self); }
+//@ replay_stub: cpc/sketch.rs | fn refresh_kxp(&mut self, bit_matrix: &[u64]) { | if true { return self::verif_kani_cpc_sketch::mw_refresh_kxp(self, bit_matrix); }
+//@ replay_stub: cpc/pair_table.rs | pub fn maybe_insert(&mut self, item: u32) -> bool { | if true { return crate::cpc::sketch::verif_kani_cpc_sketch::mw_maybe_insert(self, item); }
+//@ bounds: as c05_move_window_contract_* but deeper: the old window offset symbolic over 0..=55 (every move) with <= 2 surprising values per row, and concrete offsets 0 / 30 with <= 4 surprising values per row
+//@ assumes: build_bit_matrix returns the matrix the sketch denotes; maybe_insert stores a novel item
+//@ desc: move_window re-encodes the matrix exactly for every window offset (see c05_move_window_contract_*)
+move_window_contract_deep!(c05_move_window_contract_any_offset, kani::any(), 2); //@ tier: quick
+move_window_contract_deep!(c05_move_window_contract_0_to_1_four_per_row, 0, 4);
+move_window_contract_deep!(c05_move_window_contract_30_to_31_four_per_row, 30, 4);
 //@ endfamily: x
 
 // ---------------------------------------------------------------------------------------------
